@@ -201,6 +201,20 @@ var Cur *Proc
 
 var argsSetters []func([]string)
 
+var resetters []func()
+
+// OnReset registers a function that puts a package's global variables back to
+// their initial values (generated by the instrumenter).
+func OnReset(f func()) { resetters = append(resetters, f) }
+
+// ResetGlobals runs every registered resetter: what follows behaves like a
+// fresh operating-system process as far as package-level state goes.
+func ResetGlobals() {
+	for _, f := range resetters {
+		f()
+	}
+}
+
 // OnArgs registers a callback that receives argv when a process starts (the os
 // shim uses it to keep its Args variable current).
 func OnArgs(f func([]string)) { argsSetters = append(argsSetters, f) }
@@ -250,6 +264,7 @@ func Run(p *Proc, flagSet string, mainFn func()) {
 	for _, f := range argsSetters {
 		f(append([]string(nil), p.Argv...))
 	}
+	ResetGlobals()
 	ResetFlags(flagSet)
 	defer func() {
 		Cur = nil
